@@ -50,13 +50,12 @@ Proof. destruct d; simpl; auto. apply fl_list_same_refl. Qed.
 (* the model's output satisfies the executable property, for ALL well-formed cases of all three kinds *)
 Theorem spec_ok_on_model c : gwf O c = true -> gspec_ok O c (grun_case O c) = true.
 Proof.
-  destruct c as [bounds ops|fixed san global name ovs|n dur ops|q fc fd]; intros Hwf.
+  destruct c as [bounds ops|fixed san global name ovs usfx unit|n dur ops|q fc fd]; intros Hwf.
   - apply spec_ok_on_model_hist.
-  - simpl in Hwf. subst fixed. unfold grun_case, gspec_ok.
+  - simpl in Hwf. subst fixed. unfold grun_case, gspec_ok, render_family.
     change (if san then sanitize_name name else name) with (eff_key san name).
-    rewrite (model_meets_spec O san global name ovs), optb_same_refl. cbn [andb].
     pose proof (type_iff_histogram O (db_new O true san global ovs) (eff_key san name)) as T.
-    rewrite (model_meets_spec O san global name ovs) in T.
+    rewrite (model_meets_spec O san global name ovs) in *. rewrite optb_same_refl. cbn [andb].
     destruct (spec_choice O san global name ovs);
       destruct (get_distribution_type O (db_new O true san global ovs) (eff_key san name)); try reflexivity.
     + exfalso. assert (false = true) by (apply T; discriminate). discriminate.
@@ -67,13 +66,16 @@ Proof.
 Qed.
 
 (* what an accepted override output means *)
-Theorem spec_ok_sound_dist fixed san global name ovs ty d :
-  gspec_ok O (CDist O fixed san global name ovs) (ODist O ty d) = true ->
+Theorem spec_ok_sound_dist fixed san global name ovs usfx unit ty d fam :
+  gspec_ok O (CDist O fixed san global name ovs usfx unit) (ODist O ty d fam) = true ->
   optb_same O d (spec_choice O san global name ovs) = true
+  /\ (ty = true <-> spec_choice O san global name ovs <> None)
   /\ (ty = true <-> d <> None).
 Proof.
-  unfold gspec_ok. intros H. apply andb_prop in H as [H1 H2]. split; [exact H1|].
-  apply Bool.eqb_prop in H2. subst ty. destruct d; split; intros; congruence.
+  unfold gspec_ok. intros H. apply andb_prop in H as [H H3]. apply andb_prop in H as [H1 H2].
+  split; [exact H1|]. apply Bool.eqb_prop in H2, H3. split.
+  - rewrite H2. destruct (spec_choice O san global name ovs); split; intros; congruence.
+  - rewrite H3. destruct d; split; intros; congruence.
 Qed.
 
 End Generic.
@@ -123,24 +125,25 @@ Proof. vm_compute. auto. Qed.
 Definition http_2xx : list N := [104; 116; 116; 112; 95; 50; 120; 120].
 Definition pat_2xx : list N := [50; 120; 120].
 Definition pat_http : list N := [104; 116; 116; 112].
+Definition unit_seconds : list N := [115; 101; 99; 111; 110; 100; 115].
 
 Example dist_example :
   let ovs := [((MSuffix, pat_2xx), [f64 0x3ff0000000000000%Z]);
               ((MPrefix, pat_http), [f64 0x4000000000000000%Z]);
               ((MSuffix, [120]), [f64 0x4008000000000000%Z])] in
-  out_eqb (run_case (cdist true true None http_2xx ovs)) (odist true (Some [f64 0x4000000000000000%Z])) = true
-  /\ spec_ok (cdist true true None http_2xx ovs) (run_case (cdist true true None http_2xx ovs)) = true
-  /\ out_eqb (run_case (cdist true true None http_2xx (firstn 1 ovs))) (odist true (Some [f64 0x3ff0000000000000%Z])) = true
-  /\ out_eqb (run_case (cdist true true None pat_2xx (firstn 1 ovs))) (odist true (Some [f64 0x3ff0000000000000%Z])) = true
-  /\ out_eqb (run_case (cdist true true None pat_http (firstn 1 ovs))) (odist false None) = true.
+  out_eqb (run_case (cdist true true None http_2xx ovs false None)) (odist true (Some [f64 0x4000000000000000%Z]) http_2xx) = true
+  /\ spec_ok (cdist true true None http_2xx ovs false None) (run_case (cdist true true None http_2xx ovs false None)) = true
+  /\ out_eqb (run_case (cdist true true None http_2xx (firstn 1 ovs) true (Some unit_seconds))) (odist true (Some [f64 0x3ff0000000000000%Z]) (http_2xx ++ 95 :: unit_seconds)) = true
+  /\ out_eqb (run_case (cdist true true None pat_2xx (firstn 1 ovs) false None)) (odist true (Some [f64 0x3ff0000000000000%Z]) [95; 120; 120]) = true
+  /\ out_eqb (run_case (cdist true true None pat_http (firstn 1 ovs) true (Some unit_seconds))) (odist false None (pat_http ++ 95 :: unit_seconds)) = true.
 Proof. vm_compute. auto 10. Qed.
 
 (* the code as found (first-character rule on suffixes) violates the property *)
 Theorem suffix_refuted_before_fix :
-  exists c : gcase ZO, (match c with CDist _ fixed _ _ _ _ => fixed = false | _ => False end)
+  exists c : gcase ZO, (match c with CDist _ fixed _ _ _ _ _ _ => fixed = false | _ => False end)
                        /\ gspec_ok ZO c (grun_case ZO c) = false.
 Proof.
-  exists (CDist ZO false true None http_2xx [((MSuffix, pat_2xx), [Some 1%Z])]).
+  exists (CDist ZO false true None http_2xx [((MSuffix, pat_2xx), [Some 1%Z])] false None).
   split; [reflexivity|]. vm_compute. reflexivity.
 Qed.
 
